@@ -82,7 +82,7 @@ def obs (r : Run) : String :=
   let s := r.s
   let al := sortAddrs (aliveAddrs s)
   let cs := (r.calls.foldl (fun acc c => insertNat (c.k, s!"{c.k}:{c.res.getD "-"}") acc) []).map (·.2)
-  s!"obs list=[{",".intercalate s.list}] last=[{",".intercalate s.last}] pos={s.pos} waiters={s.waiters.length} alive=[{",".intercalate al}] sent=[{",".intercalate s.sent}] calls=[{" ".intercalate cs}]"
+  s!"obs nt={s.targets.length} list=[{",".intercalate s.list}] last=[{",".intercalate s.last}] pos={s.pos} waiters={s.waiters.length} alive=[{",".intercalate al}] sent=[{",".intercalate s.sent}] calls=[{" ".intercalate cs}]"
 
 /-- one detection pass: every target flagged dead is pinged; the list is rebuilt in the observed
     order when the model says it may have been rebuilt; waiters are released. -/
@@ -98,8 +98,9 @@ def detectionPass (r : Run) (order : List String) (pos : Nat) : Run :=
     else if live.isEmpty then ({ s with list := [], heap := [], last := [] }, order.isEmpty)
     else
       let sorted := sortAddrs live
-      let unchanged := order == s0.list && pos == s0.pos && sorted == s0.last
-      if unchanged then (s, true)
+      -- the same set of live addresses as remembered: check() must leave list and cursor alone;
+      -- a different set: the list is rebuilt (in the observed map order) and the cursor reset
+      if sorted == s0.last then (s, order == s0.list && pos == s0.pos)
       else ({ s with last := sorted, list := order, heap := order, pos := pos }, sortAddrs order == sorted && pos == 0)
   let s1 := checkPending s
   let r := { r with s := s1, ok := r.ok && ok }
